@@ -26,7 +26,11 @@ func (g *G) str() X {
 		"left join", "GROUP BY", "order by", "full outer join"}).Draw(g.T, "str")
 	if g.F.Corners && g.chance(6, "oddstr") {
 		// a value that starts with a quote (written \' so that it is not read as a triple quote), a raw Ctrl-Z
-		v = rapid.SampledFrom([]string{"'lead", "'", "a\x1ab", "''twice"}).Draw(g.T, "oddstrv")
+		odd := []string{"'lead", "'", "a\x1ab", "''twice"}
+		if g.F.NoBackslashQuote {
+			odd = []string{"a\x1ab"}
+		}
+		v = rapid.SampledFrom(odd).Draw(g.T, "oddstrv")
 		g.use("odd_string")
 	}
 	g.Names.Strings[v] = true
